@@ -10,6 +10,7 @@ import gen
 from common import Outcome, np, rng_for
 
 LEVEL = "proof"
+SHRINK_KEYS = ("stream",)
 EXPLANATION = ("Theorems (Lean): KSWIN window = last min(t,W) values, drift iff ksP(sample, newest) <= alpha for the drawn tape, all-/none-reject corollaries, "
                "determinism in (stream, tape); STEPD counts and the continuity-corrected two-proportion rule. This run reproduces NumPy's draws, "
                "enumerates every possible sub-sample for small windows, re-runs equal seeds, and evaluates STEPD's rule with scipy's normal sf.")
